@@ -444,3 +444,30 @@ def run_fault_histories(v, hists, wd, sigprefix):
                 v.deviation(asan_sig(err) or "exit-status:%d" % rc, {"history": h["id"], "stderr": err[-800:]})
     st.update({"compared": compared, "faults_fired": fired, "faults_not_reached": notfired, "distinct_faults": len(seen)})
     return st, exp
+
+
+def run_threads_io(wd, tier, asan=True):
+    """bind/c/wasi_threads_io.c: guest threads inside args/environ calls (first requests after wasiInit, long vectors) and inside data
+    transfers on files of their own at the same time.  -> (result dict or None, stderr, rc)"""
+    exe = os.path.join(wd, "wasithreadsio" + ("" if asan else "-plain"))
+    rc, so, se = run(["gcc", "-g", "-O1", "-w"] + (["-fsanitize=address"] if asan else ["-O2"]) + ["-I", os.path.join(REPO, "w2c2"), "-I", os.path.join(REPO, "wasi"), *WDEFS,
+                      os.path.join(BINDC, "wasi_threads_io.c"), os.path.join(REPO, "wasi", "wasi.c"), "-o", exe, "-lm", "-lpthread"], timeout=300)
+    if rc != 0:
+        raise MachineryError("cannot build the threaded I/O driver: " + se[-1500:])
+    best = None
+    for rep in range(3 if tier == "quick" else 12):
+        sb = os.path.join(wd, "tiosb%d%s" % (rep, "a" if asan else "p"))
+        os.makedirs(sb, exist_ok=True)
+        rc, so, se = run([exe, sb, "6", "4000" if tier == "quick" else "40000", "30000"], timeout=600, env={"ASAN_OPTIONS": "detect_leaks=0:exitcode=97"})
+        shutil.rmtree(sb, ignore_errors=True)
+        try:
+            res = json.loads(so.strip().splitlines()[-1])
+        except (ValueError, IndexError):
+            return None, se, rc
+        if best is None:
+            best = res
+        else:
+            for k_ in ("calls", "bad_args", "bad_io"):
+                best[k_] += res[k_]
+            best["first"] = (best["first"] + res["first"])[:6]
+    return best, "", 0
